@@ -82,6 +82,27 @@ Theorem C16_opacity_plain_decimal : forall g c v neg ip fp,
   (accepts g c KOpacity v = true <-> RoundsIntoUnit (decimal_Q neg ip fp)).
 Proof. exact opacity_plain_decimal. Qed.
 
+(* strconv.ParseFloat on every decimal literal with an exponent of at most four digits *)
+Theorem C16_parse_float_decimal_exp : forall v neg ip fp eneg ed,
+  DecimalExpLit v neg ip fp eneg ed ->
+  parse_float v =
+  Some (FNum false neg (pos_val (ip ++ fp)) (exp_value eneg ed - Z.of_nat (length fp))%Z).
+Proof. exact parse_float_decimal_exp. Qed.
+
+Theorem C16_opacity_decimal_exp : forall g c v neg ip fp eneg ed,
+  DecimalExpLit v neg ip fp eneg ed ->
+  (accepts g c KOpacity v = true <->
+   RoundsIntoUnit (fnum_Q false neg (pos_val (ip ++ fp)) (exp_value eneg ed - Z.of_nat (length fp)))).
+Proof. exact opacity_decimal_exp. Qed.
+
+(* ParseFloat yields NaN exactly on the spellings of "nan" in any letter case (no sign) *)
+Theorem C16_parse_float_nan_iff : forall v, parse_float v = Some FNaN <-> map lowerA v = str_nan.
+Proof. exact parse_float_nan_iff. Qed.
+
+Theorem C16_opacity_guarded_spelling : forall g c v,
+  map lowerA v <> str_nan -> (accepts g c KOpacity v = true <-> DocOpacityRounded v).
+Proof. exact opacity_guarded_spelling. Qed.
+
 (* --- shape ------------------------------------------------------------------------------------- *)
 (* refuted on objects: "ſquare" (LATIN SMALL LETTER LONG S) passes strings.EqualFold and is stored
    as such; the empty string is accepted (it means "unset") *)
@@ -182,6 +203,17 @@ Print Assumptions C16_near_refuted.
 Print Assumptions C16_near_guarded.
 Print Assumptions C16_near_accept_iff_key.
 Print Assumptions C16_doc_near_key_b_is_DocNearKey.
+Example C16_decimal_exp_lit_satisfiable : DecimalExpLit [49; 101; 45; 49] false [49] [] true [49].
+Proof.
+  split; [repeat constructor|]. split; [constructor|]. split; [left; discriminate|].
+  split; [repeat constructor|]. split; [discriminate|]. split; [cbn; lia|].
+  exists [], [45], 101, [49]. repeat split; auto.
+Qed.
+
+Print Assumptions C16_parse_float_decimal_exp.
+Print Assumptions C16_opacity_decimal_exp.
+Print Assumptions C16_parse_float_nan_iff.
+Print Assumptions C16_opacity_guarded_spelling.
 Print Assumptions C16_atoi_spec.
 Print Assumptions C16_tolower_spec.
 Print Assumptions C16_parse_float_plain_decimal.
